@@ -15,7 +15,7 @@ from vlib.runner import Proof, ToolError
 from vlib.cxx2c import strip_type, Unsupported
 from vlib import ctx, astx, configure
 import lowering
-from lowering import C10Lowerer, profile, extend_profile, variant_alternatives, alt_cname
+from lowering import C10Lowerer, profile, extend_profile, extend_profile_negotiation, variant_alternatives, alt_cname, register_variant, find_lambdas, lambda_call_operator
 
 QT = os.path.join(VERIF, 'qtmodel')
 HERE = os.path.dirname(os.path.abspath(__file__))
@@ -28,7 +28,25 @@ STUBS = ['XmppSocket_sendData', 'XmppSocket_disconnectFromHost', 'QXmppOutgoingC
          'OutgoingIqManager_onSessionOpened', 'CarbonManager_onSessionOpened', 'CsiManager_onSessionOpened', 'FastTokenManager_tokenChanged',
          'QXmppOutgoingClient_sig_connected']
 FINDING2 = 'C10-F2'
+NEG_STUBS = ['qtask_then', 'C2sStreamManager_requestResume', 'C2sStreamManager_requestEnable', 'BindManager_bindAddress', 'NonSaslAuthManager_authenticate',
+             'setListener_BindManager', 'setListener_SaslManager', 'SaslManager_authenticate', 'QXmppOutgoingClient_startSasl2Auth', 'QXmppOutgoingClient_startNonSaslAuth',
+             'QXmppConfiguration_setUser', 'QXmppConfiguration_setDomain', 'QXmppConfiguration_setResource', 'QXmppConfiguration_setJid', 'QXmppConfiguration_resource',
+             'QXmppConfiguration_user', 'QXmppConfiguration_password', 'QXmppConfiguration_nonSASLAuthMechanism', 'FastTokenManager_onSasl2Success',
+             'C2sStreamManager_onSasl2Success', 'C2sStreamManager_onBind2Bound']
 BOTH_EXCLUDED = ('F1_EXCLUDED', 'F2_EXCLUDED')
+
+NEG_HARNESS = '''
+void h_startSmResume(void) { gh_init(); QXmppOutgoingClient *self; QXmppOutgoingClient_startSmResume(self); }
+void h_startSmEnable(void) { gh_init(); QXmppOutgoingClient *self; QXmppOutgoingClient_startSmEnable(self); }
+void h_startResourceBinding(void) { gh_init(); QXmppOutgoingClient *self; QXmppOutgoingClient_startResourceBinding(self); }
+void h_startSmResume_cont(void) { gh_init(); const QXmppOutgoingClient *self; startSmResume_cont0(self); }
+void h_startSmEnable_cont(void) { gh_init(); const QXmppOutgoingClient *self; startSmEnable_cont0(self); }
+void h_startResourceBinding_cont(void) { gh_init(); const QXmppOutgoingClient *self; BindResult *r; startResourceBinding_cont0(self, r); }
+void h_startSasl2Auth_cont(void) { gh_init(); const QXmppOutgoingClient *self; Sasl2Result *r; startSasl2Auth_cont1(self, r); }
+void h_startNonSaslAuth_cont0(void) { gh_init(); const QXmppOutgoingClient *self; NonSaslOptionsResult *r; startNonSaslAuth_cont0(self, r); }
+void h_startNonSaslAuth_cont1(void) { gh_init(); const QXmppOutgoingClient *self; SuccessOrError *r; startNonSaslAuth_cont1(self, r); }
+void h_handleStreamFeatures_cont(void) { gh_init(); const QXmppOutgoingClient *self; SaslResult *r; handleStreamFeatures_cont0(self, r); }
+'''
 
 
 def rd(name):
@@ -215,7 +233,7 @@ def build(work, tier):
     keys = {strip_type(lt['qualType']), strip_type(lt.get('desugaredQualType', lt['qualType']))}
     alts = variant_alternatives(lt.get('desugaredQualType', lt['qualType']))
     C10Lowerer.listener_alts = alts
-    prof = extend_profile(profile(keys))
+    prof = extend_profile_negotiation(extend_profile(profile(keys)))
     prof.types.update({'QSharedDataPointer<QXmppConfigurationPrivate>': 'QXmppConfigurationPrivate*', 'QXmppConfigurationPrivate': 'QXmppConfigurationPrivate'})
     b = Builder('C10', work, prof)
     common = rd('common.inc').strip()
@@ -318,7 +336,8 @@ def build(work, tier):
     body = '\n'.join(lowered[f] for f in order)
     gh_init = ('static void gh_init(void) { gh_sent = nondet_uint(); gh_sent_last = nondet_int(); gh_sock_disconnects = nondet_uint(); gh_connects = nondet_uint(); gh_errors = nondet_uint();\n'
                '  gh_ack_closed = nondet_uint(); gh_iq_closed = nondet_uint(); gh_iq_opened = nondet_uint(); gh_iq_cancel_all = nondet_uint(); gh_carbon_opened = nondet_uint();\n'
-               '  gh_csi_opened = nondet_uint(); gh_ev_disconnected = nondet_uint(); gh_ev_connected = nondet_uint(); gh_iq_closed_resumable = nondet_bool(); gh_ev_disconnected_resumable = nondet_bool(); }\n')
+               '  gh_csi_opened = nondet_uint(); gh_ev_disconnected = nondet_uint(); gh_ev_connected = nondet_uint(); gh_iq_closed_resumable = nondet_bool(); gh_ev_disconnected_resumable = nondet_bool();\n'
+               '  gh_step_pending = nondet_bool(); gh_steps = nondet_uint(); gh_cont_last = nondet_int(); }\n')
     harness = gh_init + '''
 void h_socketDisconnected(void) { gh_init(); QXmppOutgoingClient *self; QXmppOutgoingClient__q_socketDisconnected(self); }
 void h_closeSession(void) { gh_init(); QXmppOutgoingClient *self; QXmppOutgoingClient_closeSession(self); }
@@ -345,11 +364,94 @@ void h_clientIsConnected(void) { gh_init(); const QXmppClient *self; QXmppClient
     lem = b.subst(rd('lemma.h'))
     flem = b.write('c10_lemma.c', '\n'.join([head, protos, lem]))
 
+    # ------------------------------------------------------------------ the callers of openSession(): step starters and continuations
+    C10Lowerer.listener_alts = alts
+    r_bound = record(OC, 'BoundAddress', 'BoundAddress', need=['user', 'domain', 'resource'])
+    r_perr = record(OC, 'ProtocolError', 'ProtocolError', need=['text'])
+    r_nsopt = record(OC, 'NonSaslAuthOptions', 'NonSaslAuthOptions', need=['plain', 'digest'])
+    r_s2succ = record(OC, 'Sasl2::Success', 'Success', 'Sasl2Success', need=['authorizationIdentifier', 'bound', 'smResumed'])
+    tmp_lw = C10Lowerer({'inner': []}, 'x', prof)
+    vstructs, vdefs = [], []
+    conts = {}      # cname -> (operator() decl, description)
+
+    def continuation(fn_name, ordinal, cname, vname=None):
+        fn = astx.find_function(path(OC), 'QXmppOutgoingClient::', fn_name)
+        lams = find_lambdas(fn)
+        if ordinal >= len(lams):
+            raise Unsupported('%s: continuation lambda #%d not found (restructured code)' % (fn_name, ordinal))
+        op = lambda_call_operator(lams[ordinal])
+        pvs = [c for c in op.get('inner', []) if c.get('kind') == 'ParmVarDecl']
+        if vname:
+            if len(pvs) != 1:
+                raise Unsupported('%s: continuation #%d takes %d parameters' % (fn_name, ordinal, len(pvs)))
+            t = pvs[0]['type']
+            full = t.get('desugaredQualType', t['qualType'])
+            if vname not in lowering.VARIANTS:
+                valts = variant_alternatives(full)
+                vstructs.append(register_variant(prof, [t['qualType'], full], vname, valts, tmp_lw))
+                vdefs.append('#define VARIANT_ALTS_%s %d' % (vname, len(valts)))
+                vdefs.extend('#define VIDX_%s_%s %d' % (vname, alt_cname(a)[4:], i) for i, a in enumerate(valts))
+            else:
+                for k in (t['qualType'], full):
+                    prof.types[strip_type(k)] = vname
+        elif pvs:
+            raise Unsupported('%s: continuation #%d unexpectedly takes parameters' % (fn_name, ordinal))
+        conts[cname] = (op, 'QXmppOutgoingClient::%s::<lambda#%d> (continuation)' % (fn_name, ordinal))
+
+    prof.types['std::pair<QString,AuthenticationError>'] = 'AuthErrPair'
+    continuation('startSmResume', 0, 'startSmResume_cont0')
+    continuation('startSmEnable', 0, 'startSmEnable_cont0')
+    continuation('startResourceBinding', 0, 'startResourceBinding_cont0', 'BindResult')
+    continuation('startSasl2Auth', 1, 'startSasl2Auth_cont1', 'Sasl2Result')
+    continuation('startNonSaslAuth', 0, 'startNonSaslAuth_cont0', 'NonSaslOptionsResult')
+    continuation('startNonSaslAuth', 1, 'startNonSaslAuth_cont1', 'SuccessOrError')
+    continuation('handleStreamFeatures', 0, 'handleStreamFeatures_cont0', 'SaslResult')
+    neg_lowered, neg_specs, neg_lws = {}, {}, []
+
+    def lowneg(cname, specfile, name=None, decl=None, this='QXmppOutgoingClient', src=OC, filt='QXmppOutgoingClient::', label=None):
+        sp = spec(specfile) if specfile else None
+        t = Target(src, filt, name or 'operator()', cname, this=this, lowerer_cls=C10Lowerer)
+        if decl is not None:
+            t.decl = decl
+        neg_lowered[cname] = b.lower(t, sp)
+        if label:
+            b.functions[-1]['function'] = label
+        neg_specs[cname] = sp
+        neg_lws.append(b.last)
+    for g in ('canRequestEnable', 'canRequestResume'):
+        lowneg('C2sStreamManager_' + g, None, name=g, this='C2sStreamManager', filt='C2sStreamManager')
+    for n_ in ('startSmResume', 'startSmEnable', 'startResourceBinding'):
+        lowneg(Q + n_, n_ + '.spec', name=n_)
+    for cname, specfile in (('startSmResume_cont0', 'startSmResume_cont.spec'), ('startSmEnable_cont0', 'startSmEnable_cont.spec'),
+                            ('startResourceBinding_cont0', 'startResourceBinding_cont.spec'), ('startSasl2Auth_cont1', 'startSasl2Auth_cont.spec'),
+                            ('startNonSaslAuth_cont1', 'startNonSaslAuth_cont1.spec'), ('startNonSaslAuth_cont0', 'startNonSaslAuth_cont0.spec'),
+                            ('handleStreamFeatures_cont0', 'handleStreamFeatures_cont.spec')):
+        lowneg(cname, specfile, decl=conts[cname][0], label=conts[cname][1])
+    cont_ids = []
+    for lw_ in neg_lws:
+        for i in range(len(getattr(lw_, 'continuations', []))):
+            cont_ids.append('CONT_%s_%d' % (lw_.cname, i))
+    cont_defs = '\n'.join('#define %s %d' % (c_, i + 1) for i, c_ in enumerate(cont_ids))
+    neg_payload = sorted(set().union(*[getattr(x, 'need_payload', set()) for x in neg_lws]) - set(payload))
+    neg_payload_defs = '\n'.join('#define XML_%s %d' % (t_, len(payload) + i + 1) for i, t_ in enumerate(neg_payload))
+    neg_order = ['C2sStreamManager_canRequestEnable', 'C2sStreamManager_canRequestResume'] + [Q + n_ for n_ in ('startSmResume', 'startSmEnable', 'startResourceBinding')] + \
+        ['startSmResume_cont0', 'startSmEnable_cont0', 'startResourceBinding_cont0', 'startSasl2Auth_cont1', 'startNonSaslAuth_cont1', 'startNonSaslAuth_cont0', 'handleStreamFeatures_cont0']
+    ctxt2 = b.context()
+    seen2 = set()
+    ctxt2 = '\n'.join(l for l in ctxt2.split('\n') if not (l.startswith(('enum {', 'static const')) and (l in seen2 or seen2.add(l))))
+    neg_head = '\n'.join(['#include "opaque.h"', prof.literal_ids.table(), rd('model.h'), records, ctxt2, payload_defs, neg_payload_defs, b.subst(rd('callees.h')),
+                          r_bound, r_perr, r_nsopt, rd('variants.h'), r_s2succ] + vstructs + vdefs + [cont_defs, b.subst(rd('steps.h')),
+                          'void *const gh_keep_stubs[] = { %s };' % ', '.join('(void *)%s' % x for x in STUBS + NEG_STUBS),
+                          ''.join(b.prototype(lowered[fn]) for fn in (Q + 'openSession', Q + 'handleStart', Q + 'disconnectFromHost')),
+                          '\n'.join(neg_lowered[fn].split('\n')[0] + ';' for fn in neg_order)])
+    neg_harness = gh_init + NEG_HARNESS
+    fneg = b.write('c10_neg.c', '\n'.join([neg_head, lowered['C2sStreamManager_streamResumed'], '\n'.join(neg_lowered[fn] for fn in neg_order), neg_harness]))
+
     stubs = STUBS
     proofs = []
 
     def proof(pid, entry, enforce, replace, defines=BOTH_EXCLUDED, note='', finding=None, cfile=None):
-        sp = specs[enforce]
+        sp = specs.get(enforce) or neg_specs[enforce]
         p = Proof(pid, cfile or f, entry, enforce=enforce, replace=replace, kind='complete', include_dirs=[QT], timeout=600, loop_contracts=False,
                   defines=list(defines), note=note)
         p.labels = {'post': {enforce: sp.labels}}
@@ -381,6 +483,25 @@ void h_clientIsConnected(void) { gh_init(); const QXmppClient *self; QXmppClient
     proof('socketError', 'h_socketError', Q + 'socketError', stubs + ['QXmppOutgoingClientPrivate_connectToNextAddress'],
           note='loop-free; every socket error, socket state, client state; establishes the fallback invariant')
     proof('handleStreamError', 'h_handleStreamError', Q + 'handleStreamError', stubs, note='loop-free; every stream error (see-other-host or a defined condition)')
+
+    # ---- the callers of openSession(): openSession / handleStart / disconnectFromHost and the verified starters through their contracts
+    nstubs = STUBS + NEG_STUBS
+    sess = [Q + 'openSession', Q + 'handleStart', Q + 'disconnectFromHost']
+    starters = [Q + 'startSmResume', Q + 'startSmEnable', Q + 'startResourceBinding']
+    for n_ in ('startSmResume', 'startSmEnable', 'startResourceBinding'):
+        proof(n_, 'h_' + n_, Q + n_, nstubs, cfile=fneg, note='loop-free; the step starter: sends its request and registers exactly one continuation')
+    proof('startSmResume.continuation', 'h_startSmResume_cont', 'startSmResume_cont0', nstubs + sess + starters, cfile=fneg,
+          note='loop-free; every stream-management / bind availability; openSession and startResourceBinding through their (verified) contracts: openSession requires that no session is open and no step is pending at each call site')
+    proof('startSmEnable.continuation', 'h_startSmEnable_cont', 'startSmEnable_cont0', nstubs + sess + starters, cfile=fneg, note='loop-free')
+    proof('startResourceBinding.continuation', 'h_startResourceBinding_cont', 'startResourceBinding_cont0', nstubs + sess + starters, cfile=fneg,
+          note='loop-free; every bind result (bound address / stanza error / protocol error); real C2sStreamManager::canRequestEnable inlined')
+    proof('startSasl2Auth.continuation', 'h_startSasl2Auth_cont', 'startSasl2Auth_cont1', nstubs + sess + starters, cfile=fneg,
+          note='loop-free; every SASL2 result (success with/without bound, resumed, failed / error pair)')
+    proof('startNonSaslAuth.continuation-options', 'h_startNonSaslAuth_cont0', 'startNonSaslAuth_cont0', nstubs + sess + starters, cfile=fneg,
+          note='loop-free; every options result; the authentication request is the one further step')
+    proof('startNonSaslAuth.continuation-auth', 'h_startNonSaslAuth_cont1', 'startNonSaslAuth_cont1', nstubs + sess + starters, cfile=fneg, note='loop-free')
+    proof('handleStreamFeatures.continuation-sasl', 'h_handleStreamFeatures_cont', 'handleStreamFeatures_cont0', nstubs + sess + starters, cfile=fneg,
+          note='loop-free; SASL success restarts the stream (handleStart through its verified contract), failure gives up')
 
     ops = [Q + n for n in ('_q_socketDisconnected', 'handleStart', 'openSession', 'disconnectFromHost', 'handleStreamError', 'socketError')]
     nlem1 = len(re.findall(r'"\[lemma\.', lem.split('void h_lemma_once')[0]))
